@@ -404,7 +404,7 @@ func c16HashFamily(c *lib.Ctx) {
 		pool = append(pool, w)
 	}
 	c.Ev.Coverage["hash_random_key_pool"] = len(pool)
-	nRandom := c.Scale(600, 12000)
+	nRandom := c.Scale(600, 60000)
 	for n := 0; n < nRandom; n++ {
 		nk := 2 + c.Rng.Intn(5)
 		var keys []string
